@@ -788,3 +788,81 @@ def canonicalise(f: Func) -> bool:
         return Canon(f).run()
     except RecursionError:  # pragma: no cover
         return False
+
+
+def propagate_string_constants(prog) -> int:
+    """Names bound once at module level (here or in the module they are imported from) to a string literal are replaced
+    by the literal in every function of the package: `x == _BALANCED` reads `x == "balanced"` to the rules.  Names that a
+    function binds itself (parameters, locals, loop variables, globals it declares) are left alone."""
+    from .constfold import Folder, Unfoldable
+
+    n_repl = 0
+    cache = {}
+
+    def value_of(module, name):
+        key = (module.name, name)
+        if key not in cache:
+            v = None
+            try:
+                fo = Folder(module, None, budget=200)
+                fo.prog = prog
+                got = fo.fold(ast.Name(id=name, ctx=ast.Load()))
+                if isinstance(got, str):
+                    v = got
+            except (Unfoldable, RecursionError):
+                v = None
+            except Exception:
+                v = None
+            cache[key] = v
+        return cache[key]
+
+    for q, f in prog.functions.items():
+        if not q.startswith(prog.package + ".") or not isinstance(f.node, (ast.FunctionDef, ast.AsyncFunctionDef)):
+            continue
+        bound = set(f.params) | set(f.kwonly)
+        a = f.node.args
+        if a.vararg:
+            bound.add(a.vararg.arg)
+        if a.kwarg:
+            bound.add(a.kwarg.arg)
+        cur = f
+        while cur is not None:
+            for n in own_nodes(cur.node):
+                if isinstance(n, ast.Name) and isinstance(n.ctx, (ast.Store, ast.Del)):
+                    bound.add(n.id)
+                elif isinstance(n, (ast.Global, ast.Nonlocal)):
+                    bound |= set(n.names)
+                elif isinstance(n, (ast.FunctionDef, ast.AsyncFunctionDef, ast.ClassDef)):
+                    bound.add(n.name)
+                elif isinstance(n, ast.ExceptHandler) and n.name:
+                    bound.add(n.name)
+                elif isinstance(n, (ast.Import, ast.ImportFrom)):
+                    bound |= {(x.asname or x.name).split(".")[0] for x in n.names}
+            bound |= set(getattr(cur, "params", []))
+            cur = getattr(cur, "parent", None)
+        changed = False
+        for n in list(own_nodes(f.node)):
+            if isinstance(n, ast.Name) and isinstance(n.ctx, ast.Load) and n.id not in bound:
+                v = value_of(f.module, n.id)
+                if v is None:
+                    continue
+                par = getattr(n, "_parent", None)
+                if par is None:
+                    continue
+                new = ast.copy_location(ast.Constant(value=v), n)
+                done = False
+                for fld, val in ast.iter_fields(par):
+                    if val is n:
+                        setattr(par, fld, new)
+                        done = True
+                    elif isinstance(val, list):
+                        for i, x in enumerate(val):
+                            if x is n:
+                                val[i] = new
+                                done = True
+                if done:
+                    changed = True
+                    n_repl += 1
+        if changed:
+            set_parents(f.node)
+    return n_repl
